@@ -330,6 +330,9 @@ else:
         else:
             mountain = False  # find valley floor
 
+        # in case the first change is at the last point (loop below
+        # does not execute):
+        nxt = cur
         for i in range(i + 1, y.size):
             nxt = y[i]
             if np.abs(nxt - cur) > stol:
